@@ -590,11 +590,11 @@ func checkFanout(c *Ctx, cfg fanoutCfg) {
 	r, p := c.R, c.P
 	pre := cfg.Prop
 	if cfg.Prop == "C10" {
-		r.Explanation = "Decides structural necessary conditions of C10 on events/batcher, over the events along the inlined paths of Subscribe, the queue callback, Close and the forwarder goroutines (constructs resolved by role): (M1) the subscriber list and the id counter only under the Batcher mutex; (M2) every send into a subscriber buffer made under the lock sits in a select with a channel the subscriber's forwarder closes BEFORE it takes the lock on its way out (otherwise a subscriber leaving with a full buffer wedges the delivery, every later one and Close); (M3) the close channel — the way out of the fan-out select — is closed by Close without the lock and without first waiting for the queue processor that may be stuck in that select; (M4) subscribers are registered only after the closed flag was read false under the lock, forwarder goroutines are added to the wait group under the lock before they start and call Done on every exit, every wait in them has a shutdown case (subscriber context and close channel), each closes its subscriber channel and takes the lock to deregister on every exit, Close marks closed, passes the lock barrier, then waits on every path; (M5) Batch enqueues the key through Processor.Enqueue with due time clock.Now()+interval, the callback offers the item's value to every entry of the subscriber list in one critical section of the exclusively held lock, by a blocking send (no default, no timeout: the only alternatives are the subscriber's release channel and the close channel), and nothing is sent unless the closed flag was read false; the forwarder passes on exactly what it received. NOT decided: the per-key debounce law and delivery order over all timelines (C06 covers the queue's own necessary conditions)."
+		r.Explanation = "Decides structural necessary conditions of C10 on events/batcher, over the events along the inlined paths of Subscribe, the queue callback, Close and the forwarder goroutines (constructs resolved by role): (M1) the subscriber list and the id counter only under the Batcher mutex; (M2) every send into a subscriber buffer made under the lock sits in a select with a channel the subscriber's forwarder closes BEFORE it takes the lock on its way out (otherwise a subscriber leaving with a full buffer wedges the delivery, every later one and Close); (M3) the close channel — the way out of the fan-out select — is closed by Close without the lock and without first waiting for the queue processor that may be stuck in that select; (M4) subscribers are registered only after the closed flag was read false under the lock, forwarder goroutines are added to the wait group under the lock before they start and call Done on every exit, every wait in them has a shutdown case (subscriber context and close channel), each closes its subscriber channel and takes the lock to deregister on every exit, Close marks closed, passes the lock barrier, then waits on every path; (M5) Batch enqueues the key through Processor.Enqueue with due time clock.Now()+interval, the callback offers the item's value to every entry of the subscriber list in one critical section of the exclusively held lock, by a blocking send (no default, no timeout: the only alternatives are the subscriber's release channel and the close channel), and nothing is sent unless the closed flag was read false; the forwarder passes on exactly what it received; (M6) subscriber ids come from a counter field that is only ever incremented by one under the lock; (Q2/Q3/Q5/Q6/Q7/Q8) the necessary conditions of the queue processor the delivery rests on (atomic exit and token once, pop only after the identity re-check, not early, Enqueue's insert/token attempt/reset, heap order, signal channels), evaluated as in C06 under C10 rule ids; closeCh is closed only by the call of Close that won the closed flag. NOT decided: the per-key debounce law, exactly-once and delivery order over all timelines."
 	} else {
-		r.Explanation = "Decides structural necessary conditions of C11 on events/broadcaster, over the events along the inlined paths of Subscribe, Broadcast, Close and the forwarder goroutines (constructs resolved by role): (M1) the subscriber list and the id counter only under the Broadcaster mutex and the whole fan-out loop of Broadcast runs in one critical section (necessary for one common order); (M2) every send into a subscriber buffer under the lock selects on a channel the forwarder closes before taking the lock; (M3) the close channel is closed by Close without the lock a blocked Broadcast holds; (M4) subscribers registered only after the closed flag was read false under the lock, forwarders tracked (Add under the lock before go, Done on every exit), shutdown case in every wait, lock-protected deregistration on every exit, Close marks closed, passes the lock barrier and waits; (M5) Broadcast delivers its argument to every entry of the subscriber list, holding the lock exclusively (not in read mode) and by a blocking send whose only alternatives are the subscriber's release channel and the close channel, and sends nothing unless the closed flag was read false; forwarders pass on exactly what they received. NOT decided: exactly-once and common order as runtime facts over all histories."
+		r.Explanation = "Decides structural necessary conditions of C11 on events/broadcaster, over the events along the inlined paths of Subscribe, Broadcast, Close and the forwarder goroutines (constructs resolved by role): (M1) the subscriber list and the id counter only under the Broadcaster mutex and the whole fan-out loop of Broadcast runs in one critical section (necessary for one common order); (M2) every send into a subscriber buffer under the lock selects on a channel the forwarder closes before taking the lock; (M3) the close channel is closed by Close without the lock a blocked Broadcast holds; (M4) subscribers registered only after the closed flag was read false under the lock, forwarders tracked (Add under the lock before go, Done on every exit), shutdown case in every wait, lock-protected deregistration on every exit, Close marks closed, passes the lock barrier and waits; (M5) Broadcast delivers its argument to every entry of the subscriber list, holding the lock exclusively (not in read mode) and by a blocking send whose only alternatives are the subscriber's release channel and the close channel, and sends nothing unless the closed flag was read false; forwarders pass on exactly what they received; closeCh is closed only by the call of Close that won the closed flag; (M6) subscriber ids come from a counter field that is only ever incremented by one under the lock. NOT decided: exactly-once and common order as runtime facts over all histories."
 	}
-	r.Assumptions = append(r.Assumptions, "type-based lock and channel identity: all subscribers' buffers are one abstract channel", "subscriber contexts and caller-owned channels can always fire/are drained by their owners", "helpers are followed through static calls, defer and go of functions of the same package; function values stored in variables are not followed")
+	r.Assumptions = append(r.Assumptions, "type-based lock and channel identity: all subscribers' buffers are one abstract channel", "subscriber contexts and caller-owned channels can always fire/are drained by their owners", "calls are followed through static calls, defer and go of same-package functions and through function values whose target is visible in the package (closure parameters, locals and captured cells, bound method values, literal slices of steps up to 8 entries, func-typed fields assigned once, single-implementation unexported interfaces, sync.Once.Do); other dynamic calls are not followed and turn absence claims into UNDECIDED")
 	r.Rule(pre+".M1-guard", "subscriber list / id counter only under the component lock", 3)
 	r.Rule(pre+".M6-unique-id", "subscriber ids come from a counter that only grows, incremented under the lock", 1)
 	if cfg.Prop == "C10" {
